@@ -7,9 +7,10 @@ max_exec_per_call=0, unbounded block cache, cold start) is deviated in at most D
     jit_maxline        in 1..N                 (block length limit: disasmEngine lines_wd)
     max_exec_per_call  in 1..N                 (0 is the default; per-call execution limit of the C loop)
     cache size         in {2, 3, 4}            (BoundedDict eviction; for gcc the deleteCB / dlclose path)
-    warm start         in {twice, prefix, mid} (same jitter: a full run / the first two dispatches / a run entered
-                                                at the middle instruction happened before; registers, memory and
-                                                exception flags are put back, translated blocks stay)
+    warm start         in {twice, prefix, mid} (same jitter: a full run / the first two dispatches / at most 60 blocks
+                                                of a run entered at the middle instruction happened before;
+                                                registers, memory and exception flags are put back, translated
+                                                blocks stay)
 
 Oracle: the single-step run of the same backend (jit_maxline=1, max_exec_per_call=1, cold, unbounded) gives the
 sequence of executed instruction addresses (one dispatch per instruction) and the final state.  Every
@@ -48,6 +49,7 @@ DEV_BOUND = 2
 CACHE_SIZES = (2, 3, 4)
 WARM = ("twice", "prefix", "mid")
 PREFIX_DISPATCHES = 2
+MID_DISPATCHES = 60
 N_QUICK, N_THOROUGH = 3, 8
 MAX_DISPATCH = 3000
 
@@ -542,7 +544,11 @@ def run_config(prog, backend, cfg):
         elif opt["warm"] == "prefix":
             warm_obs = C.execute(jit, start, max_dispatch=PREFIX_DISPATCHES)
         else:
-            warm_obs = C.execute(jit, offs[len(offs) // 2], max_dispatch=200)
+            # entered in the middle, the program may loop on garbage counters: the dispatch budget only works when
+            # every block returns to the dispatcher, so the warm-up run uses max_exec_per_call=1
+            jit.jit.set_options(max_exec_per_call=1)
+            warm_obs = C.execute(jit, offs[len(offs) // 2], max_dispatch=MID_DISPATCHES)
+            jit.jit.set_options(max_exec_per_call=opt["me"])
         C.restore(jit, snap, skip_pages=(J.CODE,))
     obs = C.execute(jit, start, max_dispatch=MAX_DISPATCH)
     out = C.summary(obs)
